@@ -67,6 +67,8 @@ def _loop_bounds(ctx, f, rid, is_publish, what):
                     groups.append((cur, e))
                 cur = []
                 continue
+            if e.kind == 'atom' and getattr(e, 'mac', None) and 'assert' in str(e.mac):
+                continue     # (a debug assertion is not a loop test)
             ab = _is_abort_atom(e)
             if ab is not None and last_pub in known and not any(k == 'bound' for k, _, _ in cur):
                 # the engine reports a decision once per value: an unchanged cursor keeps its decided relation
@@ -76,9 +78,17 @@ def _loop_bounds(ctx, f, rid, is_publish, what):
                 cur.append(('abort', ab, e))
             elif r:
                 op, it = r
+                # `cursor + 1 <= n` is `cursor < n` (an assertion on the next index restates the loop bound)
+                if op in ('Le', 'Gt'):
+                    b_, k_ = lin(strip(it))
+                    if k_ >= 1:
+                        op = 'Lt' if op == 'Le' else 'Ge'
+                        it = ('const', f'{k_ - 1}_usize') if b_ is None else (b_ if k_ == 1 else it)
                 cur.append(('bound', op, e))
                 known[strip(it)] = op
-                if strip(it) != last_pub:
+                la, lb = lin(strip(it)), lin(last_pub)
+                same_cursor = strip(it) == last_pub or (la[1] == lb[1] and (la[0] == lb[0] or (la[0] is not None and lb[0] is not None and strip(la[0]) == strip(lb[0]))))
+                if not same_cursor:
                     bad.append((p, e, f'the loop bound is tested for {show(strip(it))[:32]} while the cursor stands at {show(last_pub)[:32]}'))
         if cur:
             groups.append((cur, None))
@@ -101,6 +111,8 @@ def _loop_bounds(ctx, f, rid, is_publish, what):
                 if not (set_ or atend):
                     bad.append((p, e0, 'the loop is left although the abort flag was not read set and the cursor was not found at block_size'))
             else:
+                if not clear and not set_ and not other:
+                    continue     # (a comparison with block_size away from the loop head, e.g. an assertion on the next index)
                 n_cont += 1
                 if not (clear and below):
                     bad.append((p, e0, 'the loop goes on without having read the abort flag clear and the cursor below block_size'))
